@@ -552,6 +552,81 @@ def scan_templates(cfg_fields, derived_globals):
     return rows
 
 
+# ---------------------------------------------------------------------------------------------- writers of generated files
+def scan_writers(trees, cfg_fields):
+    """every call that writes a file (Path.write_text / write_bytes / open in a writing or unknown mode) in the package:
+    (file, site, callee, encoded) where encoded = the call passes encoding=<config>.file_encoding"""
+    rows = []
+    for rel, tree in sorted(trees.items()):
+        pm = parent_map(tree)
+        for n in ast.walk(tree):
+            if not isinstance(n, ast.Call):
+                continue
+            cn = callee_name(n)
+            if cn in ("write_text", "write_bytes", "writelines") or (cn == "write" and isinstance(n.func, ast.Attribute)):
+                pass
+            elif cn == "open":
+                mode = None
+                if len(n.args) >= 2 and isinstance(n.func, ast.Name):
+                    mode = n.args[1]
+                elif isinstance(n.func, ast.Attribute) and n.args:
+                    mode = n.args[0]
+                for k in n.keywords:
+                    if k.arg == "mode":
+                        mode = k.value
+                if mode is None or (isinstance(mode, ast.Constant) and isinstance(mode.value, str) and not set(mode.value) & set("wax+")):
+                    continue        # reading
+            else:
+                continue
+            enc = False
+            for k in n.keywords:
+                if k.arg == "encoding":
+                    v = k.value
+                    enc = (isinstance(v, ast.Attribute) and v.attr == "file_encoding" and
+                           (isinstance(v.value, ast.Name) and v.value.id == "config" or isinstance(v.value, ast.Attribute) and v.value.attr == "config"))
+            rows.append((rel, enclosing_site(n, pm), cn, enc, n.lineno))
+    return rows
+
+
+# ---------------------------------------------------------------------------------------------- triple-quoted literals in templates
+def scan_docstring_literals():
+    """every `{{ expression }}` that a template places lexically INSIDE a triple-quoted Python literal: (template, expression).
+    Document text must only reach such a place through helpers.jinja's safe_docstring (raw literal when a backslash occurs)."""
+    tdir = os.path.join(PKG, "templates")
+    rows = []
+    for root, dirs, files in os.walk(tdir):
+        dirs.sort()
+        for f in sorted(files):
+            if not (f.endswith(".py.jinja") or f == "helpers.jinja" or f.endswith(".jinja") and "property_templates" in root):
+                continue
+            p = os.path.join(root, f)
+            rel = "templates/" + os.path.relpath(p, tdir).replace(os.sep, "/")
+            src = open(p, encoding="utf-8").read()
+            # drop jinja comments
+            src = re.sub(r"\{#.*?#\}", lambda m: "\n" * m.group(0).count("\n"), src, flags=re.S)
+            inside, i, line = False, 0, 1
+            while i < len(src):
+                if src.startswith('"""', i) or src.startswith("'''", i):
+                    inside = not inside
+                    i += 3
+                    continue
+                if src.startswith("{{", i):
+                    j = src.find("}}", i)
+                    if j < 0:
+                        raise RuntimeError("unterminated {{ in " + rel)
+                    if inside:
+                        rows.append((rel, " ".join(src[i + 2:j].split()), line))
+                    line += src[i:j].count("\n")
+                    i = j + 2
+                    continue
+                if src[i] == "\n":
+                    line += 1
+                i += 1
+            if inside:
+                rows.append((rel, UNKNOWN + " unbalanced triple quotes", line))
+    return rows
+
+
 # ---------------------------------------------------------------------------------------------- output
 def collect():
     cfg_fields, cf_fields = config_facts()
@@ -573,6 +648,7 @@ def collect():
             out.append(r)
     return {"reads": out, "config_fields": cfg_fields, "configfile_fields": cf_fields, "readme_options": readme_options(),
             "merge": merge_facts(cfg_fields), "py_space": [c for c in range(0x110000) if chr(c).isspace()],
+            "writers": scan_writers(ps.trees, cfg_fields), "docstring_literals": scan_docstring_literals(),
             "derived_globals": {k: sorted(v) for k, v in ps.derived_globals.items()},
             "project_derived": {k: sorted(v) for k, v in ps.project_derived.items()}}
 
@@ -597,6 +673,13 @@ def generate(d):
              ";\n".join("  %s  (* %s *)" % (coq_str(f), cmt(f)) for f in d["readme_options"]) + "\n].\n\n")
     L.append("(* Config.from_sources: (Config field, how it is filled, from what) *)\nDefinition gen_merge : list (list N * list N * list N) := [\n" +
              ";\n".join("  (%s, %s, %s)  (* %s <- %s %s *)" % (coq_str(a), coq_str(b), coq_str(c), cmt(a), cmt(b), cmt(c)) for a, b, c in d["merge"]) + "\n].\n\n")
+    L.append("(* every call of the package that writes a file: (file, function, callee, passes encoding=config.file_encoding) *)\n"
+             "Definition gen_writers : list (list N * list N * list N * bool) := [\n" +
+             ";\n".join("  (%s, %s, %s, %s)  (* %s:%d %s %s *)" % (coq_str(f), coq_str(st), coq_str(cn), "true" if enc else "false", cmt(f), ln, cmt(st), cn)
+                        for f, st, cn, enc, ln in d["writers"]) + "\n].\n\n")
+    L.append("(* every {{ expression }} a template places inside a triple-quoted Python literal: (template, expression) *)\n"
+             "Definition gen_docstring_literals : list (list N * list N) := [\n" +
+             ";\n".join("  (%s, %s)  (* %s:%d %s *)" % (coq_str(f), coq_str(e), cmt(f), ln, cmt(e)) for f, e, ln in d["docstring_literals"]) + "\n].\n\n")
     L.append("(* code points c with chr(c).isspace() in the interpreter that runs the generator (str.strip() strips exactly these) *)\n"
              "Definition gen_py_space : list N := [" + "; ".join(str(c) for c in d["py_space"]) + "]%N.\n")
     return "".join(L)
